@@ -56,7 +56,7 @@ def cFmod (a b : Float) : Float :=
 
 /-- CPython `float_rem` -/
 def pyMod (a b : Float) : Except Err Float :=
-  if b == 0.0 then .error .zerodiv
+  if b == 0.0 then .error .value
   else
     let m := cFmod a b
     if m != 0.0 then .ok (if (b < 0.0) != (m < 0.0) then m + b else m)
@@ -65,7 +65,7 @@ def pyMod (a b : Float) : Except Err Float :=
 def pyPow (a b : Float) : Except Err Float :=
   match TV.Expr.floatPow a b with
   | .ok v => .ok v
-  | .error e => .error (if e == "err:zerodiv" then .zerodiv else if e == "err:OverflowError" then .overflow else .unsupported)
+  | .error e => .error (if e == "err:zerodiv" then .value else if e == "err:OverflowError" then .value else .unsupported)
 
 def b2f (b : Bool) : Float := if b then 1.0 else 0.0
 
@@ -76,7 +76,7 @@ def pyFn (f : String) (x : Float) : Except Err Float :=
   else if f == "SIGN" then .ok (b2f (x >= 0.0) - b2f (x < 0.0))
   else if f == "EXP" then
     let r := x.exp
-    if r.isInf && x.isFinite then .error .overflow else .ok r
+    if r.isInf && x.isFinite then .error .value else .ok r
   else if f == "COS" then (if x.isInf then .error .value else .ok x.cos)
   else if f == "SIN" then (if x.isInf then .error .value else .ok x.sin)
   else if f == "TAN" then (if x.isInf then .error .value else .ok x.tan)
@@ -92,7 +92,7 @@ def argBest (better : Float → Float → Bool) (init : Float) (l : List Float) 
 def pyAgg (f : String) (l : List Float) : Except Err Float :=
   let v := l.filter (fun x => !x.isNaN)
   if f == "SUM" then .ok (v.foldl (· + ·) 0.0)
-  else if f == "AVG" then (if v.isEmpty then .error .zerodiv else .ok (v.foldl (· + ·) 0.0 / Float.ofNat v.length))
+  else if f == "AVG" then (if v.isEmpty then .error .value else .ok (v.foldl (· + ·) 0.0 / Float.ofNat v.length))
   else if f == "MIN" then .ok (l.foldl (fun m x => if x < m then x else m) big)
   else if f == "MAX" then .ok (l.foldl (fun m x => if x > m then x else m) (-big))
   else if f == "ARGMIN" then .ok (Float.ofNat (argBest (fun x m => x < m) big l))
@@ -103,7 +103,7 @@ def pyAgg (f : String) (l : List Float) : Except Err Float :=
 def pyShiftIdx (number : Float) (i n : Nat) : Except Err Nat :=
   match pyMod (Float.ofNat i - number) (Float.ofNat n) with
   | .error e => .error e
-  | .ok m => if m.isNaN then .error .value else if m.isInf then .error .overflow else .ok m.floor.toUInt64.toNat
+  | .ok m => if m.isNaN then .error .value else if m.isInf then .error .value else .ok m.floor.toUInt64.toNat
 
 def fops : Ops Float where
   zero := 0.0
@@ -115,8 +115,8 @@ def fops : Ops Float where
   isNaN := Float.isNaN
   parse := fun s => s.toInt?.map Float.ofInt
   one := 1.0
-  div := (· / ·)
-  isZero := fun x => x == 0.0
+  divide := (· / ·)
+  eqZero := fun x => x == 0.0
   pow := pyPow
   mod := pyMod
   lt := fun a b => a < b
@@ -158,7 +158,6 @@ def nameList? (s : String) : Option (List String) := (splitTok s ',').mapM name?
 def showErr : Err → String
   | .reserved => "err:reserved" | .empty => "err:empty" | .unknown => "err:unknown" | .key => "err:key"
   | .index => "err:index" | .value => "err:value" | .type => "err:type" | .exit => "err:exit"
-  | .zerodiv => "err:zerodiv" | .overflow => "err:overflow"
   | .unsupported => "unsupported"
 
 def showRet : Ret Float → String
